@@ -13,8 +13,8 @@ What the manual says, and what is encoded here:
   value expanded against itself.  A PROGRAM inside VALUE runs with the variables of the specified set.
 * `env [...] unset NAME` removes NAME (no error if absent).
 * current directory: initialised to <sandbox>/act; `cd [-rel-act|-rel-tmp|-rel-cd] PATH` (default relativity: current
-  directory); stays in effect for all following instructions and phases; a child process changing its own
-  directory changes nothing.
+  directory; after the act phase also -rel-result); stays in effect for all following instructions and phases; a
+  child process changing its own directory changes nothing.
 * timeout: default 60 (seconds); `timeout = INTEGER`, `timeout = none`; applies to all following instructions/phases.
 * `def`: the symbol is available in all following instructions and phases; a path symbol with relativity -rel-cd
   (also the default relativity of `def path`) is evaluated when REFERENCED, and is rendered as an absolute path.
@@ -37,7 +37,7 @@ PRELUDE_DIRS = ('a/a/a', 'b')      # created below both act/ and tmp/
 
 def known_dirs():
     """Directories (relative to the sandbox root, '' = the root) into which a generated `cd` may lead."""
-    ret = {'', 'act', 'tmp'}
+    ret = {'', 'act', 'tmp', 'result'}     # result/ exists from the start ("initially empty")
     for top in ('act', 'tmp'):
         for d in PRELUDE_DIRS:
             parts = d.split('/')
@@ -115,12 +115,18 @@ class Settings:
         for s in sets_of(of):
             self.env[s].pop(name, None)
 
+    def _base(self, rel):
+        if rel in ('cd', None):
+            return self.cwd
+        if rel in ('act', 'tmp', 'result'):
+            return self.root + '/' + rel
+        raise ValueError(rel)
+
     def cd_target(self, rel, path):
         """The directory `cd [rel] path` leads to (does not change the state)."""
         if path.startswith('/'):
             return posixpath.normpath(path)
-        base = {'act': self.root + '/act', 'tmp': self.root + '/tmp', 'cd': self.cwd, None: self.cwd}[rel]
-        return posixpath.normpath(posixpath.join(base, path))
+        return posixpath.normpath(posixpath.join(self._base(rel), path))
 
     def cd(self, rel, path):
         self.cwd = self.cd_target(rel, path)
@@ -155,7 +161,7 @@ class Settings:
 
     # -- observations -----------------------------------------------------------------------------
     def dir_exists(self, path):
-        """Is `path` one of the directories known to exist (sandbox root, act, tmp and the prelude's)?"""
+        """Is `path` one of the directories known to exist (sandbox root, act, tmp, result and the prelude's)?"""
         if path == self.root:
             return True
         if not path.startswith(self.root + '/'):
@@ -167,9 +173,7 @@ class Settings:
             if n == name:
                 if v[0] == 'string':
                     return v[1]
-                rel, file_name = v[1], v[2]
-                base = {'act': self.root + '/act', 'tmp': self.root + '/tmp', 'cd': self.cwd, None: self.cwd}[rel]
-                return posixpath.join(base, file_name)
+                return posixpath.join(self._base(v[1]), v[2])
         raise KeyError(name)
 
     def observe(self, which):
